@@ -100,6 +100,11 @@ pub open spec fn indication_progress_ok(i: Indication, progress: u64) -> bool {
     }
 }
 
+/// closure was requested (known only from the metadata)
+pub open spec fn closure_wanted(m: Option<Metadata>) -> bool {
+    m.is_some() && m.unwrap().closure_requested
+}
+
 /// C18 / C13: a Finished indication carries the outcome and the filestore responses the transaction holds
 pub open spec fn indication_outcome_ok(i: Indication, condition: Condition, delivery_code: DeliveryCode, file_status: FileStatusCode, responses: Seq<FileStoreResponse>) -> bool {
     match i {
